@@ -48,17 +48,17 @@ func userAddress(i uint64) string {
 
 // voteFixture is a live chain prepared so that every voted message kind has a valid body.
 type voteFixture struct {
-	sim      *world.Sim
-	n        int // voters
-	btcKey   world.BtcKey
-	pending  []uint64 // pending withdrawal ids, consumed front first at app level
-	pid      uint64
-	pidIDs   []uint64
-	prevFee  uint64
-	salt     uint64
+	sim       *world.Sim
+	n         int // voters
+	btcKey    world.BtcKey
+	pending   []uint64 // pending withdrawal ids, consumed front first at app level
+	pid       uint64
+	pidIDs    []uint64
+	prevFee   uint64
+	salt      uint64
 	procCount uint64
-	amount   uint64
-	maxPrice uint64
+	amount    uint64
+	maxPrice  uint64
 }
 
 func newVoteFixture(n int, epoch, seq uint64, schnorrKey bool) (*voteFixture, error) {
@@ -313,11 +313,11 @@ type VoteSpec struct {
 	DocMethod   int  `json:"doc_method,omitempty"`   // 0 = right, k = method of kind (Kind+k)%5
 	DocProposer int  `json:"doc_proposer,omitempty"` // 0 = right, k = member k's address
 	// fields of the Votes message and of the message itself
-	MsgSeqDelta int `json:"msg_seq_delta,omitempty"`
-	MsgEpDelta  int `json:"msg_epoch_delta,omitempty"`
-	MsgProposer int `json:"msg_proposer,omitempty"` // 0 = current proposer, k = member k
-	Tamper      int `json:"tamper,omitempty"`       // body field changed after signing (0 = none)
-	SigKind     int `json:"sig_kind,omitempty"`     // 0 aggregate, 1 47 bytes, 2 49 bytes, 3 infinity, 4 another valid point
+	MsgSeqDelta int    `json:"msg_seq_delta,omitempty"`
+	MsgEpDelta  int    `json:"msg_epoch_delta,omitempty"`
+	MsgProposer int    `json:"msg_proposer,omitempty"` // 0 = current proposer, k = member k
+	Tamper      int    `json:"tamper,omitempty"`       // body field changed after signing (0 = none)
+	SigKind     int    `json:"sig_kind,omitempty"`     // 0 aggregate, 1 47 bytes, 2 49 bytes, 3 infinity, 4 another valid point
 	Class       string `json:"class"`
 	// Reuse > 0: replace the Votes by those of the (Reuse-1 mod k)-th earlier valid vote of the case, with the
 	// sequence and epoch fields rewritten to the current values
@@ -337,8 +337,8 @@ type builtVote struct {
 	// otherwise genuine quorum; the statement does not speak about it (some
 	// message kinds bound the bitmap size, others do not)
 	unspecified bool
-	genuine    bool   // contains >= 1 genuine member share over the right seq/epoch
-	doc        []byte // the document an honest signature of this vote covers (true context, untampered body)
+	genuine     bool   // contains >= 1 genuine member share over the right seq/epoch
+	doc         []byte // the document an honest signature of this vote covers (true context, untampered body)
 }
 
 func tamperBody(b voteBody, which int) voteBody {
@@ -592,7 +592,6 @@ func (f *voteFixture) buildVote(s VoteSpec) (*builtVote, error) {
 	out.msg = final.msg(msgProposer, votes)
 	return out, nil
 }
-
 
 // priorVote remembers a vote that was valid and accepted, with the document it signs.
 type priorVote struct {
